@@ -35,9 +35,14 @@ func run(seed uint64, n int, tier string, outDir string) []*Stats {
 func modelStream(r *Rng, st *Stats, cf *CoqFile, n int) {
 	g := &mgen{r: r}
 	var items []string
+	var itemsMin []string
 	add := func(src *Ex, f featSet, kind string) {
 		js := "v9 = (" + src.JS() + ");\n"
-		res := api.Transform(js, f.options())
+		opts := f.options()
+		if kind == "random-tree-minify" {
+			opts.MinifySyntax = true
+		}
+		res := api.Transform(js, opts)
 		if len(res.Errors) > 0 {
 			st.Histogram["model-input-rejected"]++
 			if st.Histogram["model-input-rejected"] <= 3 {
@@ -56,6 +61,10 @@ func modelStream(r *Rng, st *Stats, cf *CoqFile, n int) {
 			out = &Ex{K: kStr, N: -1}
 		}
 		st.Note(kind, f.String()+js, usesLowered(src))
+		if kind == "random-tree-minify" {
+			itemsMin = append(itemsMin, fmt.Sprintf("(%s, %s, %s)", f.coq(), src.Coq(), out.Coq()))
+			return
+		}
 		items = append(items, fmt.Sprintf("(%s, %s, %s)", f.coq(), src.Coq(), out.Coq()))
 		if len(items) <= 2 {
 			st.Sample(map[string]string{"input": js, "features": f.String(), "output": string(res.Code)})
@@ -79,5 +88,11 @@ func modelStream(r *Rng, st *Stats, cf *CoqFile, n int) {
 		e := g.expr(r.Range(1, 4))
 		add(e, pickFeat(r), "random-tree")
 	}
+	// the same lowerings under MinifySyntax: the output shapes must be the ones of the model
+	gm := &mgen{r: r, min: true}
+	for i := 0; i < n/3; i++ {
+		add(gm.expr(r.Range(1, 4)), pickFeat(r), "random-tree-minify")
+	}
 	cf.AddCases("lower", "feat * expr * expr", "check_lower", items)
+	cf.AddCases("lowermin", "feat * expr * expr", "check_lower", itemsMin)
 }
